@@ -27,8 +27,8 @@ ASSUMPTIONS = [
     'K8 (symmetrize(sym_ops=single 3x3 matrix) reshapes to (1,3,3) instead of (3,3,1); pinned by the offline test_symmetrize) tolerated only for a 2-D sym_ops argument whose output equals the broadcast model of that mechanism',
     'K5 (fft_autocorrelation inverse FFT of length 2T-2) tolerated only when the output equals the closed-form aliasing model of exactly that mechanism',
 ]
-N_CASES = {'quick': 260, 'thorough': 6000}
-BUDGET_S = {'quick': 220, 'thorough': 2500}
+N_CASES = {'quick': 260, 'thorough': 30000}
+BUDGET_S = {'quick': 220, 'thorough': 3600}
 GROUPS = ['1', '-1', '2', 'm', '2/m', '222', 'mm2', 'mmm', '4', '-4', '4/m', '422', '4mm', '-42m', '4/mmm', '23', 'm-3', '432', '-43m', 'm-3m']
 K5 = 'K5-fft-autocorrelation-length'
 K8 = 'K8-symmetrize-single-matrix-reshape'
